@@ -129,6 +129,7 @@ type Machine struct {
 	timers    []*chanV
 	ptrIDs    map[*value]int
 	inInit    int
+	resetEvery int
 	needFP    bool
 	mapOrderNondet bool
 }
@@ -279,9 +280,29 @@ func (m *Machine) concretize(t *Term, what string, capN int, signed bool, onResi
 	d := m.nextDecision("val", func() *decision {
 		d := &decision{}
 		var excl []*Term
-		lo := uint64(0)
+		// 1. probe small values directly (no model extraction needed)
+		probeN := capN
+		small := tCmp("bvult", t, mkConst(t.W, uint64(probeN)))
+		if r := m.check(small); r == Sat {
+			for k := 0; k < probeN && len(d.alts) < capN; k++ {
+				eq := tEq(t, mkConst(t.W, uint64(k)))
+				r := m.check(eq)
+				if r == Unknown {
+					m.abort("solver unknown while enumerating %s", what)
+				}
+				if r == Sat {
+					d.alts = append(d.alts, uint64(k))
+				}
+			}
+			excl = append(excl, tNot(small))
+		} else if r == Unknown {
+			m.abort("solver unknown while enumerating %s", what)
+		} else {
+			excl = append(excl, tNot(small))
+		}
+		// 2. remaining values (>= probeN): model-based enumeration in increasing order
+		lo := uint64(probeN)
 		for len(d.alts) < capN {
-			// prefer small values: ask for the minimum by probing small constants first
 			r := m.check(excl...)
 			if r == Unknown {
 				m.abort("solver unknown while enumerating %s", what)
@@ -294,7 +315,6 @@ func (m *Machine) concretize(t *Term, what string, capN int, signed bool, onResi
 				m.abort("get-value failed: %v", err)
 			}
 			v := vals[t.ID]
-			// try to minimise (unsigned) with a few bisection steps so enumeration yields small lengths first
 			v = m.minimize(t, lo, v, excl)
 			lo = v + 1
 			d.alts = append(d.alts, v)
@@ -636,6 +656,9 @@ func (m *Machine) resetPath() {
 
 func (m *Machine) runPath(fn *ssa.Function) *abortPath {
 	m.resetPath()
+	if m.resetEvery > 0 && m.paths%m.resetEvery == 0 {
+		m.solver.Reset()
+	}
 	g0 := m.newG("main")
 	m.cur = g0
 	g0.started = true
